@@ -257,6 +257,70 @@ func TestVerifC02Tree(t *testing.T) {
 		"total below/at/between/above the minimums and requests); each set run on 3 independently built trees; non-trivial = >=2 siblings compete for capacity above the minimums")
 }
 
+// ---- exhaustive small scope (thorough tier): every sibling set with <= 3 siblings over a small value grid ----
+
+func TestVerifC02Exhaustive(t *testing.T) {
+	h := vOpen("C02")
+	if h == nil {
+		t.Skip("VERIF_OUT not set")
+	}
+	vals := []int64{0, 1, 3}
+	weights := []int64{0, 1, 2}
+	type cfg struct {
+		w, req, min int64
+		lend        bool
+	}
+	var one []cfg
+	for _, w := range weights {
+		for _, rq := range []int64{0, 2, 5} {
+			for _, m := range vals {
+				for _, l := range []bool{true, false} {
+					one = append(one, cfg{w, rq, m, l})
+				}
+			}
+		}
+	}
+	idx := 0
+	emit := func(total int64, cs []cfg) {
+		r := h.Begin(idx)
+		idx++
+		if r == nil {
+			return
+		}
+		ns := make([]*c02Node, len(cs))
+		for i, c := range cs {
+			ns[i] = &c02Node{name: i + 1, w: c.w, req: c.req, min: c.min, lend: c.lend}
+		}
+		res := c02RunTree(r, total, ns)
+		for _, nd := range ns {
+			nd.rt = res[nd.name]
+		}
+		if len(cs) >= 2 {
+			h.Nontrivial()
+		}
+		c02Emit(h, total, ns)
+		c02Oracle(h, total, ns)
+		h.End()
+	}
+	for n := 1; n <= 3; n++ {
+		var rec func(cs []cfg)
+		rec = func(cs []cfg) {
+			if len(cs) == n {
+				for total := int64(0); total <= 9; total++ {
+					emit(total, cs)
+				}
+				return
+			}
+			for _, c := range one {
+				rec(append(cs, c))
+			}
+		}
+		rec(nil)
+	}
+	h.Extra("exhaustive", fmt.Sprintf("all sibling sets with 1..3 siblings over weight {0,1,2} x request {0,2,5} x min {0,1,3} x lend {t,f}, totals 0..9: %d cases", idx))
+	h.Close("exhaustive enumeration of every sibling set with 1-3 siblings over weight {0,1,2} x request {0,2,5} x min {0,1,3} x lend, totals 0..9; non-trivial = at least 2 siblings")
+}
+
 // ---- multi-level: GroupQuotaManager.RefreshRuntime ----
 
 func c02RL(cpu, mem int64) v1.ResourceList {
